@@ -354,3 +354,80 @@ def rule_adapter(facts, rep, crate, mod):
     s = [n for n in hir.walk(nw["hir"]) if n.get("k") == "struct"]
     ok = len(s) == 1 and is_ok_ctor(hir.simp({x["name"]: x["e"] for x in s[0]["fields"]}.get("error", {})))
     rep.check(ok, "W4", nw["path"], "new:error-starts-Ok", "", loc(nw))
+
+
+EXITS = ("ret", "break", "continue")
+
+
+def _early_exit(stmts):
+    for s in stmts:
+        for n in hir.walk(s):
+            if n.get("k") in EXITS or (n.get("k") == "match" and n.get("src") == "TryDesugar"):
+                return n
+    return None
+
+
+def _uses_of(root, name):
+    """Every call (or method call) that receives the local `name`, plus the number of occurrences of the local."""
+    occ = [n for n in hir.walk(root) if n.get("k") == "local" and n.get("name") == name]
+    calls = [n for n in hir.walk(root) if n.get("k") == "call" and any(hir.is_local(hir.peel(a), name) for a in n["args"])]
+    return occ, calls
+
+
+def rule_through(facts, rep, rule):
+    """Everything the strip stream hands to the inner writer went through the scanner that carries the stream's state, on every
+    path: no fast path, no second scanner, no early exit before the scan (used by C01 reach, C03 and C06)."""
+    for fn, inner in (("write", "std::io::Write::write"), ("write_all", "std::io::Write::write_all")):
+        b = facts.body(CRATE, M + fn)
+        rep.fn(b["path"])
+        names = [p.get("name") for p in b["params"]]
+        if names != ["raw", "state", "buf"]:
+            raise AnchorMissing(f"strip::{fn} parameters are {names}")
+        top = hir.stmts_of(b["hir"])
+        loops = [(i, hir.for_loop(s)) for i, s in enumerate(top) if isinstance(s, dict) and s.get("k") == "match" and hir.for_loop(s)]
+        ok = len(loops) == 1
+        detail = "exactly one top-level `for piece in state.strip_next(buf)`"
+        if ok:
+            i, (pat, it, body) = loops[0]
+            ok = pat.get("k") == "pbind" and hir.is_call(it, "StripBytes::strip_next") and hir.is_local(it["args"][0], "state") and hir.is_local(it["args"][1], "buf")
+            ex = _early_exit(top[:i])
+            if ex is not None:
+                ok = False
+                detail = f"the function can leave before the scan (`{hirpp.expr(ex)[:60]}`): bytes of this call bypass the carried state"
+        rep.check(ok, rule, b["path"], "scan-is-unconditional", detail, loc(b))
+        if not ok:
+            continue
+        occ, calls = _uses_of(b["hir"], "raw")
+        good = [c for c in calls if hir.callee_decl(c) == inner and hir.is_local(c["args"][0], "raw") and hir.is_local(c["args"][1], pat["name"])
+                and any(c is x for x in hir.walk(body))]
+        rep.check(len(good) == 1 and len(calls) == 1 and len(occ) == 1, rule, b["path"], "inner-writer-gets-only-stripped-pieces",
+                  f"the only use of the inner writer is `raw.{fn}(piece)` on the loop variable; found {[hirpp.expr(c)[:60] for c in calls]}", loc(b))
+        # the scanner is the stream's own: `state` is used for the scan (and, in write, the snapshot / restore / replay), never replaced
+        other = [c for c in hir.walk(b["hir"]) if c.get("k") == "call" and hir.callee(c).startswith("anstream::adapter::strip::")
+                 and hir.callee(c).split("::")[-1] in ("strip_str", "strip_bytes", "new", "default")]
+        rep.check(not other, rule, b["path"], "no-second-scanner", f"{[hir.callee(c) for c in other]}", loc(b))
+    f = facts.body(CRATE, M + "write_fmt")
+    rep.fn(f["path"])
+    names = [p.get("name") for p in f["params"]]
+    if names != ["raw", "state", "args"]:
+        raise AnchorMissing(f"strip::write_fmt parameters are {names}")
+    top = hir.stmts_of(f["hir"])
+    ex = _early_exit(top[:-1])
+    clos = [n for n in hir.walk(f["hir"]) if n.get("k") == "closure"]
+    ok = ex is None and len(clos) >= 1
+    detail = "write_fmt = fmt::Adapter::new(|buf| write_all(raw, state, buf)).write_fmt(args) on every path"
+    if ex is not None:
+        detail = f"the function can leave before formatting through the adapter (`{hirpp.expr(ex)[:60]}`)"
+    if ok:
+        for name in ("raw", "state"):
+            occ, calls = _uses_of(f["hir"], name)
+            good = [c for c in calls if hir.is_call(c, M + "write_all") and [hir.local_name(a) for a in c["args"][:2]] == ["raw", "state"]
+                    and any(any(c is x for x in hir.walk(cl["body"])) for cl in clos)]
+            if not (len(good) == 1 and len(calls) == 1 and len(occ) == 1):
+                ok = False
+                detail = f"`{name}` is used outside `write_all(raw, state, buf)`: {[hirpp.expr(c)[:60] for c in calls]}"
+        tail = hir.simp(top[-1])
+        ok = ok and hir.is_call(tail, "anstream::fmt::Adapter::<W>::write_fmt") and hir.is_local(tail["args"][1], "args")
+        occ, calls = _uses_of(f["hir"], "args")
+        ok = ok and len(occ) == 1
+    rep.check(ok, rule, f["path"], "write_fmt:all-text-through-write_all", detail, loc(f))
